@@ -161,7 +161,19 @@ def norm(spec, raw, ctx):
     r = _norm(spec, raw, ctx)
     if isinstance(r, OK) and validator_rejects(spec, _concrete(r.v)):
         return REJ
+    if isinstance(r, OK) and spec.get("validator") == "tag" and r.v is not None:
+        return OK(tag_transform(r.v))
     return r
+
+
+def tag_transform(v):
+    """The 'tag' validator from the harness menu rewrites what it accepts (validators return the value to store); it is
+    deliberately not idempotent, so that validating a stored item a second time is observable."""
+    if isinstance(v, str):
+        return "p:" + v
+    if isinstance(v, int) and not isinstance(v, bool):
+        return v + 1000
+    return v
 
 
 def _concrete(v):
@@ -170,7 +182,7 @@ def _concrete(v):
     if isinstance(v, TList):
         return [None] * len(v.items)
     if isinstance(v, TDict):
-        return {i: None for i in range(len(v.pairs))}
+        return {_k(a): None for a, _ in v.pairs}      # entries after key normalisation
     if isinstance(v, Digest):
         return None
     return v
